@@ -195,7 +195,7 @@ func c02Run(t *testing.T, p c02Plan) (res vfResult) {
 			time.Sleep(50 * time.Millisecond)
 		}
 		synctest.Wait()
-		verifPointFn = nil
+		vfCurSched.Store(nil)
 		evs := sc.eventsCopy()
 		history := func() string {
 			b, _ := json.Marshal(trace)
